@@ -11,7 +11,7 @@ from . import common
 LEVEL = "exploration"
 RULE = ("seeded random datasets (magnitudes 1e-6..1e12, offsets of 1e9 with unit spread, nulls, masks, unused categories, "
         "null keys, 1-2 keys) x var/std (ddof 0/1) against the exact rational two-pass value; median and quantile (scalar and "
-        "list q) against np.median / np.quantile on each group's selected values; apply with user functions returning a "
+        "list q, ascending or not) against np.median / np.quantile on each group's selected values; apply with user functions returning a "
         "scalar, a fixed-length vector or an input-aligned vector against calling the function on each group's values in "
         "row order; agg([...]) against the individual calls; ratio against sum/sum; single-key density against shares in "
         "percent adding up to 100. distinct = case digests; non-trivial = some group has >= 2 selected non-null values")
@@ -38,7 +38,7 @@ def plan(tier):
 
 
 def required_counters(tier):
-    return [f"sub:{s}" for s in set(SUBS)] + ["offset_magnitude", "ddof0", "masked", "unused_category_or_emptied_group", "multi_column_apply", "int_group_sum_above_3e9"]
+    return [f"sub:{s}" for s in set(SUBS)] + ["offset_magnitude", "ddof0", "masked", "unused_category_or_emptied_group", "multi_column_apply", "int_group_sum_above_3e9", "quantile_levels_not_ascending"]
 
 
 def features(case):
@@ -164,6 +164,8 @@ def check(case, ctx):
 
     if sub in ("median", "quantile"):
         q = case["params"].get("q")
+        if np.ndim(q) and list(q) != sorted(q):
+            ctx.count("quantile_levels_not_ascending")
         r = lib.call(gb.median, val, mask=mask) if sub == "median" else lib.call(gb.quantile, val, q=q, mask=mask)
         if raised(r, sub):
             return fails
@@ -326,7 +328,8 @@ def gen_case(rng, dtypes):
     if sub in ("var", "std"):
         case["params"] = {"ddof": int(rng.integers(0, 2))}
     elif sub == "quantile":
-        case["params"] = {"q": gen.pick(rng, [[0.5], [0.25, 0.75], [0.0, 1.0], [0.1, 0.5, 0.9], 0.5, 0.3])}
+        case["params"] = {"q": gen.pick(rng, [[0.5], [0.25, 0.75], [0.0, 1.0], [0.1, 0.5, 0.9], 0.5, 0.3, [0.9, 0.1], [0.5, 0.99, 0.01], [1.0, 0.0],
+                                            [float(x) for x in np.round(rng.permutation(np.linspace(0.05, 0.95, 7))[: int(rng.integers(2, 5))], 2)]])}
     elif sub == "apply_scalar":
         case["params"] = {"func": gen.pick(rng, list(FSCALAR))}
     elif sub == "apply_fixed":
